@@ -1176,4 +1176,261 @@ theorem C09_imp_refused (cells : List Cell) (p : P) (c : Cell) (hc : c ∈ cells
       · simp [ih hc']
 
 
+
+/-! ## importances in the data block: `_try_combine_values` covers every particle of the mode exactly once -/
+
+/-- `_try_combine_values`, inner loop: a particle it adds is not covered yet, is not the gold particle, and its
+    vector is close to the gold vector entry by entry -/
+theorem combineInner_mem (close : Rat → Rat → Bool) (nv : List (P × List Rat × List P)) (p : P) (gold : List Rat) :
+    ∀ (pair cov : List P), ∀ t ∈ combineInner close nv p gold pair cov,
+      t ∉ cov ∧ t ≠ p ∧ allClose close gold (newVals nv t) = true := by
+  intro pair
+  induction pair with
+  | nil => intro cov t ht; simp [combineInner] at ht
+  | cons a rest ih =>
+    intro cov t ht
+    simp only [combineInner] at ht
+    split at ht
+    · exact ih cov t ht
+    · rename_i hcond
+      have hcond' : ¬ (a = p ∨ a ∈ cov) := by simpa using hcond
+      split at ht
+      · rename_i hclose
+        rcases List.mem_cons.mp ht with rfl | ht'
+        · exact ⟨fun h => hcond' (Or.inr h), fun h => hcond' (Or.inl h), hclose⟩
+        · obtain ⟨h1, h2, h3⟩ := ih _ t ht'
+          exact ⟨fun h => h1 (List.mem_append_left _ h), h2, h3⟩
+      · exact ih cov t ht
+
+/-- the groups of `_try_combine_values` that list particle `q` -/
+def groupsOf (q : P) (gs : List (List P × List Rat)) : List (List P × List Rat) := gs.filter (fun g => g.1.contains q)
+
+/-- a covered particle is in no later group -/
+theorem tryCombine_covered (close : Rat → Rat → Bool) (nv : List (P × List Rat × List P)) (q : P) :
+    ∀ (l : List (P × List Rat × List P)) (cov : List P), q ∈ cov →
+      groupsOf q (tryCombineValues close nv l cov) = [] := by
+  intro l
+  induction l with
+  | nil => intro cov _; rfl
+  | cons x rest ih =>
+    intro cov hq
+    obtain ⟨p, gold, pair⟩ := x
+    simp only [tryCombineValues]
+    split
+    · exact ih cov hq
+    · rename_i hp
+      have hp' : p ∉ cov := by simpa using hp
+      have hne : q ≠ p := fun h => hp' (h ▸ hq)
+      have hm : q ∉ combineInner close nv p gold pair (cov ++ [p]) := by
+        intro hmem
+        exact (combineInner_mem close nv p gold pair _ q hmem).1 (List.mem_append_left _ hq)
+      have hcont : (p :: combineInner close nv p gold pair (cov ++ [p])).contains q = false := by
+        simp only [List.contains_eq_mem, List.mem_cons, decide_eq_false_iff_not, not_or]
+        exact ⟨hne, hm⟩
+      simp only [groupsOf, List.filter_cons, hcont, Bool.false_eq_true, if_false]
+      exact ih _ (List.mem_append_left _ (List.mem_append_left _ hq))
+
+/-- **every particle of the mode is in exactly one group** (`_try_combine_values`, for ANY vectors and pairings):
+    a particle that is not covered yet and has an entry in the rest of the loop ends up in exactly one group, whose
+    gold vector is its own vector or one its vector was found close to entry by entry -/
+theorem tryCombine_once (close : Rat → Rat → Bool) (nv : List (P × List Rat × List P)) (q : P) :
+    ∀ (l : List (P × List Rat × List P)) (cov : List P), q ∉ cov → (∃ x ∈ l, x.1 = q) →
+      ∃ g, groupsOf q (tryCombineValues close nv l cov) = [g] ∧
+        ((∃ x ∈ l, x.1 = q ∧ g.2 = x.2.1) ∨ (∃ x ∈ l, g.2 = x.2.1 ∧ allClose close g.2 (newVals nv q) = true)) := by
+  intro l
+  induction l with
+  | nil => intro cov _ h; obtain ⟨x, hx, _⟩ := h; simp at hx
+  | cons x rest ih =>
+    intro cov hq hex
+    obtain ⟨p, gold, pair⟩ := x
+    have lift : ∀ g : List P × List Rat,
+        ((∃ x ∈ rest, x.1 = q ∧ g.2 = x.2.1) ∨ (∃ x ∈ rest, g.2 = x.2.1 ∧ allClose close g.2 (newVals nv q) = true)) →
+        ((∃ x ∈ (p, gold, pair) :: rest, x.1 = q ∧ g.2 = x.2.1) ∨
+          (∃ x ∈ (p, gold, pair) :: rest, g.2 = x.2.1 ∧ allClose close g.2 (newVals nv q) = true)) := by
+      intro g h
+      rcases h with ⟨x, hx, h1, h2⟩ | ⟨x, hx, h1, h2⟩
+      · exact Or.inl ⟨x, List.mem_cons_of_mem _ hx, h1, h2⟩
+      · exact Or.inr ⟨x, List.mem_cons_of_mem _ hx, h1, h2⟩
+    have down : p ≠ q → ∃ x ∈ rest, x.1 = q := by
+      intro hne
+      obtain ⟨x, hx, hxq⟩ := hex
+      rcases List.mem_cons.mp hx with rfl | hx'
+      · exact absurd hxq hne
+      · exact ⟨x, hx', hxq⟩
+    simp only [tryCombineValues]
+    split
+    · rename_i hp
+      have hp' : p ∈ cov := by simpa using hp
+      have hne : p ≠ q := fun h => hq (h ▸ hp')
+      obtain ⟨g, h1, h2⟩ := ih cov hq (down hne)
+      exact ⟨g, h1, lift g h2⟩
+    · by_cases hin : q = p ∨ q ∈ combineInner close nv p gold pair (cov ++ [p])
+      · -- this group lists q; q is covered from here on
+        have hcont : (p :: combineInner close nv p gold pair (cov ++ [p])).contains q = true := by
+          simp only [List.contains_eq_mem, List.mem_cons, decide_eq_true_eq]
+          exact hin
+        have hcov : q ∈ cov ++ [p] ++ combineInner close nv p gold pair (cov ++ [p]) := by
+          rcases hin with rfl | h
+          · exact List.mem_append_left _ (List.mem_append_right _ (by simp))
+          · exact List.mem_append_right _ h
+        refine ⟨(p :: combineInner close nv p gold pair (cov ++ [p]), gold), ?_, ?_⟩
+        · simp only [groupsOf, List.filter_cons, hcont, if_true]
+          have := tryCombine_covered close nv q rest _ hcov
+          simp only [groupsOf] at this
+          rw [this]
+        · rcases hin with rfl | h
+          · exact Or.inl ⟨(q, gold, pair), List.mem_cons_self, rfl, rfl⟩
+          · exact Or.inr ⟨(p, gold, pair), List.mem_cons_self, rfl,
+              (combineInner_mem close nv p gold pair _ q h).2.2⟩
+      · have hin' : q ≠ p ∧ q ∉ combineInner close nv p gold pair (cov ++ [p]) := by
+          constructor
+          · exact fun h => hin (Or.inl h)
+          · exact fun h => hin (Or.inr h)
+        have hcont : (p :: combineInner close nv p gold pair (cov ++ [p])).contains q = false := by
+          simp only [List.contains_eq_mem, List.mem_cons, decide_eq_false_iff_not, not_or]
+          exact hin'
+        have hcov : q ∉ cov ++ [p] ++ combineInner close nv p gold pair (cov ++ [p]) := by
+          intro hm
+          rcases List.mem_append.mp hm with hm | hm
+          · rcases List.mem_append.mp hm with hm | hm
+            · exact hq hm
+            · simp at hm; exact hin'.1 hm
+          · exact hin'.2 hm
+        obtain ⟨g, h1, h2⟩ := ih _ hcov (down (fun h => hin'.1 h.symm))
+        refine ⟨g, ?_, lift g h2⟩
+        simp only [groupsOf, List.filter_cons, hcont, Bool.false_eq_true, if_false]
+        exact h1
+
+theorem impCollect_keys (cells : List Cell) : ∀ (mode : List P) (nv : List (P × List Rat × List P)),
+    impCollect cells mode = .ok nv → nv.map (·.1) = mode := by
+  intro mode
+  induction mode with
+  | nil => intro nv h; simp [impCollect] at h; subst h; rfl
+  | cons p rest ih =>
+    intro nv h
+    simp only [impCollect] at h
+    split at h
+    · simp at h
+    · split at h
+      · simp at h
+      · rename_i r hr
+        simp at h; subst h
+        simp [ih r hr]
+
+theorem newVals_collect (cells : List Cell) (mode : List P) (nv : List (P × List Rat × List P))
+    (h : impCollect cells mode = .ok nv) (q : P) (hq : q ∈ mode) :
+    impCollectOne q cells = .ok (newVals nv q) := by
+  have hk := impCollect_keys cells mode nv h
+  have hex : ∃ x ∈ nv, x.1 = q := by
+    rw [← hk] at hq
+    simpa using hq
+  unfold newVals
+  cases hf : nv.find? (fun x => x.1 == q) with
+  | none =>
+    obtain ⟨x, hx, hxq⟩ := hex
+    have := List.find?_eq_none.mp hf x hx
+    simp [hxq] at this
+  | some x =>
+    have hx : x ∈ nv := List.mem_of_find?_eq_some hf
+    have hxq : x.1 = q := by simpa using List.find?_some hf
+    have := impCollect_mem cells mode nv h x hx
+    rw [hxq] at this
+    exact this
+
+theorem allClose_get (close : Rat → Rat → Bool) : ∀ (a b : List Rat), allClose close a b = true →
+    ∀ (i : Nat) (x y : Rat), a[i]? = some x → b[i]? = some y → close x y = true := by
+  intro a
+  induction a with
+  | nil => intro b _ i x y hx; simp at hx
+  | cons a0 as ih =>
+    intro b h i x y hx hy
+    cases b with
+    | nil => simp at hy
+    | cons b0 bs =>
+      simp only [allClose, Bool.and_eq_true] at h
+      cases i with
+      | zero => simp at hx hy; subst hx; subst hy; exact h.1
+      | succ j => exact ih bs h.2 j x y (by simpa using hx) (by simpa using hy)
+
+theorem ent_one (g : List P × List Rat) (i : Nat) (q : P) :
+    ent [(⟨K.imp, g.1, g.2.map some, false⟩ : MCard)] i K.imp q
+      = if g.1.contains q then (((g.2.map some)[i]?).join).toList else [] := by
+  by_cases h : q ∈ g.1
+  · simp only [ent, dataEntries, List.map_cons, List.map_nil, List.filterMap_cons, List.filterMap_nil, cardEntry,
+      applies, convCard, convK]
+    simp only [List.contains_eq_mem, h, decide_true, beq_self_eq_true, Bool.or_true, Bool.and_self, if_true]
+    cases ((g.2.map some)[i]?).join <;> rfl
+  · simp only [ent, dataEntries, List.map_cons, List.map_nil, List.filterMap_cons, List.filterMap_nil, cardEntry,
+      applies, convCard, convK]
+    simp [h]
+
+theorem ent_groups (gs : List (List P × List Rat)) (i : Nat) (q : P) :
+    ent (gs.map (fun g => (⟨K.imp, g.1, g.2.map some, false⟩ : MCard))) i K.imp q
+      = (groupsOf q gs).filterMap (fun g => ((g.2.map some)[i]?).join) := by
+  induction gs with
+  | nil => rfl
+  | cons g rest ih =>
+    have e : (g :: rest).map (fun g => (⟨K.imp, g.1, g.2.map some, false⟩ : MCard))
+        = [(⟨K.imp, g.1, g.2.map some, false⟩ : MCard)] ++ rest.map (fun g => (⟨K.imp, g.1, g.2.map some, false⟩ : MCard)) := rfl
+    rw [e, ent_append, ih, ent_one]
+    by_cases h : g.1.contains q = true
+    · simp only [groupsOf, List.filter_cons, h, if_true, List.filterMap_cons]
+      cases ((g.2.map some)[i]?).join <;> rfl
+    · have h' : g.1.contains q = false := by simpa using h
+      simp only [groupsOf, List.filter_cons, h', Bool.false_eq_true, if_false, List.nil_append]
+
+/-- **importances in the data block: exactly once per particle of the mode** — for every state, when IMP goes to the
+    data block and the write succeeds, the file gives the `i`-th cell exactly one importance for every particle `q`
+    of the mode, in the data block, at the cell's index; its value is the importance the cell holds for `q`, or the
+    importance it holds for a particle whose whole vector was found close to `q`'s (a combined `imp:n,p` card). -/
+theorem C09_imp_data_once (close : Rat → Rat → Bool) (st : St) (hw : DataInputsOnce st) (items : List MItem)
+    (h : writeToFile close st = .ok items) (hf : st.flags.imp = true)
+    (i : Nat) (c : Cell) (hc : st.cells[i]? = some c) (q : P) (hq : q ∈ st.mode) :
+    ∃ v, table (render items) i (convK K.imp) q = [(Blk.data, v)] ∧
+      (v = impGet c.imp q ∨ ∃ p ∈ st.mode, v = impGet c.imp p ∧ close v (impGet c.imp q) = true) := by
+  obtain ⟨cs, hcs⟩ := write_inst_ok close st items h K.imp
+  rw [table_write close st hw items h i c hc K.imp q cs hcs]
+  have hcell : formatCellInst close st.flags c K.imp = [] := by
+    simp [formatCellInst, prints, Flags.get, hf]
+  have hany : st.cells.any (fun d => hasInformation d K.imp) = true := by
+    rw [List.any_eq_true]
+    exact ⟨c, List.mem_of_getElem? hc, rfl⟩
+  unfold formatDataInst at hcs
+  simp only [prints, Flags.get, hf, hany] at hcs
+  simp only [Bool.false_bne, Bool.and_self, if_true, impFormatData] at hcs
+  cases hnv : impCollect st.cells st.mode with
+  | error e => simp [hnv] at hcs
+  | ok nv =>
+    simp [hnv] at hcs
+    subst hcs
+    have hk := impCollect_keys st.cells st.mode nv hnv
+    have hex : ∃ x ∈ nv, x.1 = q := by
+      rw [← hk] at hq
+      simpa using hq
+    obtain ⟨g, hg, hval⟩ := tryCombine_once close nv q nv [] (by simp) hex
+    -- q's own vector
+    have hqv := newVals_collect st.cells st.mode nv hnv q hq
+    obtain ⟨hql, hqget⟩ := impCollectOne_get q st.cells _ hqv
+    obtain ⟨_, hqi⟩ := hqget i c hc
+    have key : ∃ v, g.2[i]? = some v ∧
+        (v = impGet c.imp q ∨ ∃ p ∈ st.mode, v = impGet c.imp p ∧ close v (impGet c.imp q) = true) := by
+      rcases hval with ⟨x, hx, hxq, hgx⟩ | ⟨x, hx, hgx, hclose⟩
+      · have hone := impCollect_mem st.cells st.mode nv hnv x hx
+        rw [hxq] at hone
+        obtain ⟨_, hget⟩ := impCollectOne_get q st.cells _ hone
+        obtain ⟨_, hi⟩ := hget i c hc
+        exact ⟨impGet c.imp q, by rw [hgx]; exact hi, Or.inl rfl⟩
+      · have hone := impCollect_mem st.cells st.mode nv hnv x hx
+        obtain ⟨_, hget⟩ := impCollectOne_get x.1 st.cells _ hone
+        obtain ⟨_, hi⟩ := hget i c hc
+        have hxm : x.1 ∈ st.mode := by
+          rw [← hk]; exact List.mem_map_of_mem hx
+        refine ⟨impGet c.imp x.1, by rw [hgx]; exact hi, Or.inr ⟨x.1, hxm, rfl, ?_⟩⟩
+        exact allClose_get close g.2 _ hclose i _ _ (by rw [hgx]; exact hi) hqi
+    obtain ⟨v, hv, hrel⟩ := key
+    refine ⟨v, ?_, hrel⟩
+    rw [hcell, ent_groups, hg]
+    simp [cellEnt, cellEntries, hv]
+
+
 end MontePyVerif.C09
